@@ -108,7 +108,7 @@ Section ModWorld.
       | Some s0 =>
         let '(w, k) := mod_loops a c s0 seid cp cf cq up uf uq in
         match k with
-        | O => late_ok a seid s0 w cp cf cq up uf uq rp rf rq
+        | O => late_ok a c seid s0 w cp cf cq up uf uq rp rf rq
         | S _ => early_ok s0 k
         end
       end
@@ -184,12 +184,6 @@ Section ModWorld.
   Qed.
 
   (* ---- deciding the hypotheses on concrete states (used by the non-vacuity examples) *)
-  Definition tg_eqb (a b : module * list N) : bool := module_eqb (fst a) (fst b) && key_eqb (snd a) (snd b).
-  Lemma tg_eqb_eq a b : tg_eqb a b = true <-> a = b.
-  Proof.
-    unfold tg_eqb. destruct a as [m k], b as [m' k']. cbn [fst snd]. rewrite andb_true_iff, module_eqb_eq, key_eqb_eq.
-    split; [intros [-> ->]; reflexivity|intros H; inversion H; split; reflexivity].
-  Qed.
   Fixpoint nodup_tgb (l : list (module * list N)) : bool :=
     match l with [] => true | x :: r => negb (existsb (tg_eqb x) r) && nodup_tgb r end.
   Lemma nodup_tgb_spec l : nodup_tgb l = true -> NoDup l.
